@@ -123,6 +123,7 @@ let st : storage ref = ref init_storage
 let st_k = ref 4
 let st_cfg = ref { c_dup = true; c_maxrec = n_of_int 1000000; c_maxsize = n_of_int 1000000000 }
 let tainted_ref = ref false
+let hard_taint = ref false   (* the model lost track of the files themselves (faults, cancellations) *)
 let st_lazy = ref false
 let st_validate = ref false
 
@@ -230,7 +231,8 @@ let storage_handlers = [
   ("trace", (function ["on"] -> emit "trace on" | ["off"] -> emit "trace off" | _ -> emit "*"));
   ("tracecheck", (fun _ -> emit "tracecheck ok"));
   ("snapcheck", (fun _ -> emit "snapcheck ok"));
-  ("fail", (fun _ -> tainted_ref := true; emit "fail armed"));  (* the L3 model has no faults: wildcard from here *)
+  ("cancel", (fun _ -> tainted_ref := true; hard_taint := true; emit "*"));
+  ("fail", (fun _ -> tainted_ref := true; hard_taint := true; emit "fail armed"));  (* the L3 model has no faults: wildcard from here *)
   ("clearfail", (fun _ -> emit "clearfail"));
   ("dirty", (fun _ -> emit "*"));
   ("know", (fun _ -> emit "know"));
@@ -452,6 +454,7 @@ let run_script path outpath =
               (try h args with _ -> ());
               Buffer.truncate out n0; Buffer.truncate spec_out s0; emit "model"
             | None -> emit "model")
+         | c :: args when !hard_taint && c <> "cfg" -> emit "*"
          | c :: args when !tainted && c <> "cfg" && c <> "tool" && c <> "flip" && c <> "trunc" -> emit "*"
          | c :: args ->
            if c = "flip" || c = "patch" || c = "trunc" then tainted := true;
@@ -474,7 +477,7 @@ let main () =
   let n = Array.length Sys.argv in
   let i = ref 1 in
   while !i + 1 < n do
-    tainted := false; Hashtbl.reset images; Hashtbl.reset outs; pending_evs := []; Hashtbl.reset probes; Hashtbl.reset blooms; Hashtbl.reset raws; st := init_storage; st_k := 4; st_lazy := false; st_validate := false;
+    tainted := false; hard_taint := false; Hashtbl.reset images; Hashtbl.reset outs; pending_evs := []; Hashtbl.reset probes; Hashtbl.reset blooms; Hashtbl.reset raws; st := init_storage; st_k := 4; st_lazy := false; st_validate := false;
     st_cfg := { c_dup = true; c_maxrec = n_of_int 1000000; c_maxsize = n_of_int 1000000000 };
     run_script Sys.argv.(!i) Sys.argv.(!i + 1);
     i := !i + 2
